@@ -1,6 +1,6 @@
 """Shared pipeline for standard-library function checks (C11, C12, C04 function part, C13, C14)."""
 import json, os
-SKIP = {"byteslen", "bytesslice"}     # capsule-typed (bytes) arguments are outside the value universe
+SKIP = set()     # (byteslen, bytesslice take the standard library's byte-buffer capsule: abstract capsule "bytes")
 
 def signatures(c):
     sig = c.path("sigs.ndjson")
